@@ -105,6 +105,16 @@ CHECKS = {
             "The oracle is the Go race detector: it only sees races that happen in the run. Methods documented as unsafe/setup-only are excluded and "
             "listed in the evidence; methods not in the catalog are listed too (measured by reflection).",
             "property-based generation of concurrent programs (rapid) with the Go race detector as the oracle", "DESIGN.md §5 C12"),
+    "C20": ("exploration",
+            "Four generated-input searches: (a) totality - every exported method of *Machine and of the value types (S, Time, TimeIndex, Schema, "
+            "State, *Event, *Transition, *Mutation), enumerated by reflection, plus a table of ~55 pkg/helpers and pkg/integrations calls, invoked "
+            "with per-type generated arguments (nil/live/canceled contexts, empty lists, events without a machine, ...) on machines in each "
+            "lifecycle phase (fresh, mid-queue from inside a handler, errored, after SetSchema, disposed): no panic, nothing blocked after 8 s; "
+            "(b) algebra of the set/time helpers against a set-theoretic reference (rapid + a native fuzz campaign in thorough); (c) AddSync/"
+            "RemoveSync/Cant*/Ask*/WaitFor* against the traced outcome incl. queued mutations (verif gate holds the queue); (d) copy semantics.",
+            "Input domain: states that exist in the schema; 'index S' parameters get the machine's ordered names; IsTime/WasTime get times of "
+            "matching length. Deny-list and uncallable signatures are counted in the evidence.",
+            "reflection-driven property-based testing (rapid) + native go fuzzing of the algebra", "DESIGN.md §5 C20"),
 }
 
 NOT_YET = "check not built yet in this session (planned, see DESIGN.md §9)"
